@@ -65,6 +65,12 @@ CLAIMS["C06"] = {
     "design_ref": "DESIGN.md section 4, C06",
     "note": "Trusted: Lean kernel + standard axioms; float32 arithmetic within the stated tolerance; DPSK soft output normalises the decision variable (a square root) and is compared with a float64 evaluation of the definition instead of the exact model (a test).",
 }
+CLAIMS["C15"] = {
+    "technique": "Lean 4 theorems: strict sign of the noise-free max-log LLR for every table with distinct points, exact rational models of the sign-based consumers, sigmoid law over the reals (Mathlib Real.sigmoid), composition producer -> consumer; correspondence of real consumers with the rational models on LLRs produced by the real demodulators",
+    "text": "Unbounded theorems: at a constellation point itself the max-log LLR of each label bit is strictly positive for bit 0 and strictly negative for bit 1 (any table with pairwise distinct points, any positive constants); LLRThresholder (threshold 0, positive scaling), llr_to_bits / sign_to_bin / WeightedThresholder(1, 0.5) (sigmoid(-L) vs 1/2), MinDistanceThresholder with reference points [-2, 2] and the repetition soft-bit decoder (sum/mean) decide 0 for positive and 1 for negative LLRs; P(bit=1) = sigmoid(-L) = 1/(1+e^L) is strictly decreasing and > 1/2 iff L < 0, so any consumer comparing it with thresholds hi >= 1/2 >= lo never turns a positive LLR into 1 or a negative one into 0; producer_consumer: thresholding the noise-free soft output of any catalogue table reproduces the label bit. FixedThresholder in LLR mode is a listed finding with a kernel-checked witness (test-pinned). Tie: 12 real soft demodulators (noise-free, three noise variances) x 11 real consumers + repetition decoder + BP / min-sum / Wagner / soft-RM decoders on exhaustive short and random bit sequences and synthetic LLR magnitudes 1e-3..1e3; rational-model consumers are compared decision by decision.",
+    "design_ref": "DESIGN.md section 4, C15",
+    "note": "Trusted: Lean kernel + standard axioms (reals); adaptive / dynamic thresholders (data-dependent mean thresholds) are exercised only with equal-magnitude LLR vectors containing both bit values, hysteresis only with |LLR| >= 1 (dead zone by design); sigmoid-domain consumers and the soft-input decoders are checked against the property on the implementation (a test), full decoder coverage is C10/C11.",
+}
 
 NOT_YET = {}
 
